@@ -56,6 +56,27 @@ def d_symbol_index(f, s, R, db):
                 ty = f.local_ty(l[1][1])
                 if 'GenericArray<' in ty and 'Alphabet>::K' in ty:
                     return 'symbol-index: Symbol::as_index() < K = length of a GenericArray<_, A::K>'
+            # a slice view (`&done`, `done.as_slice()`, a helper's `&[bool]` parameter after inlining) of vec![_; K::USIZE]
+            if l[0] == 'len':
+                base = l[1]
+                for _ in range(4):
+                    base = X.strip_refs(norm(base))
+                    if base[0] == 'call' and base[1].endswith(('Deref::deref', 'DerefMut::deref_mut', '::as_slice', '::as_mut_slice', 'AsRef::as_ref')) and len(base[2]) == 1:
+                        base = base[2][0]
+                        continue
+                    if base[0] == 'cast' and len(base) > 1:
+                        base = base[1]
+                        continue
+                    if base[0] == 'v':
+                        ds = f.defs().get(base[1], [])
+                        if len(ds) == 1 and ds[0][1] == 'term':
+                            e = norm(R.call(ds[0][2]))
+                            if e[0] == 'call' and e[1].endswith('from_elem') and len(e[2]) == 2 and e[2][1][0] == 'kc' and 'USIZE' in str(e[2][1][1]) and 'Alphabet>::K' in str(e[2][1][1]):
+                                return 'symbol-index: Symbol::as_index() < K = length of vec![_; K::USIZE] (through a slice view)'
+                        if len(ds) == 1 and ds[0][1] != 'term':
+                            base = R.rvalue(ds[0][2])
+                            continue
+                    break
             row_of = None
             if l[0] == 'len' and l[1][0] == 'call' and l[1][1].endswith(('::index_mut', '::index')):
                 row_of = l[1][2][0]
